@@ -8,16 +8,22 @@ PLAN = dict(
     ),
     rule=("cases are path strings: an exhaustive sweep over every sequence of <= 6 segments from "
           "{'..', '.', 'a', 'b-1', ''} with and without a leading '/', joined by '/' or by '//' (78 124 strings), "
-          "plus seeded longer/odd ones (blanks, non-ASCII, '...', ':', NUL in rejected shapes); acceptance is "
+          "plus seeded longer/odd ones (blanks, non-ASCII, '...', ':', NUL in rejected shapes, real-looking names), plus "
+          "every pair of 32 real-looking names (digit-initial 0ad 7-zip 6tunnel, g++ gtk+ libsigc++, Xaw3d R-Matrix "
+          "ISO8859-2, a.b x_y, one character, vocabulary words) as category and package in 11 accepted and rejected "
+          "shapes; acceptance is "
           "compared with an own segment normaliser, accepted values are compared component-wise with "
           "cat/pkg and ../../cat/pkg, with both canonical spellings and with re-parsed accessor output. "
-          "Depend: 26 patterns (valid/invalid simple, dewey, glob, alternation) x 16 paths (valid/invalid) x "
-          "up to 18 colon arrangements with 0-3 colons, incl. extra colons inside otherwise valid halves; "
+          "Depend: 26 patterns (valid/invalid simple, dewey, glob, alternation) x 19 paths (valid/invalid) x "
+          "up to 18 colon arrangements with 0-3 colons, incl. extra colons inside otherwise valid halves; and "
+          "every string of 1-4 ':'-separated fields over 19 fields - the vocabulary words full build bootstrap "
+          "tool test depends run pkg DEPENDS BUILD Full TOOL (each a valid pattern on its own), two valid "
+          "patterns, three valid paths, 'build=foo>=1' and the empty field (137 560 strings); "
           "acceptance = exactly one ':' and both halves parse, parts == the halves parsed directly. "
           "Non-trivial = an accepted path that is not already in canonical spelling, or any Depend string; "
           "distinct = distinct strings by 64-bit fingerprint."),
-    exhaustive={"quick": "all 78 124 strings of <= 6 segments over {'..','.','a','b-1',''} x leading '/' x separator '/' or '//'; all 26 x 16 x <=18 Depend strings",
-                "thorough": "all 78 124 strings of <= 6 segments over {'..','.','a','b-1',''} x leading '/' x separator '/' or '//'; all 26 x 16 x <=18 Depend strings"},
+    exhaustive={"quick": "all 78 124 strings of <= 6 segments over {'..','.','a','b-1',''} x leading '/' x separator '/' or '//'; all 26 x 19 x <=18 Depend strings; all 137 560 strings of 1-4 fields over the 19-field word alphabet; all 32 x 32 x 11 real-name paths",
+                "thorough": "all 78 124 strings of <= 6 segments over {'..','.','a','b-1',''} x leading '/' x separator '/' or '//'; all 26 x 19 x <=18 Depend strings; all 137 560 strings of 1-4 fields over the 19-field word alphabet; all 32 x 32 x 11 real-name paths"},
     assumptions=[
         "the segment normaliser in harness/src/oracle/misc.rs is a faithful reading of the statement (it is deliberately not std::path::Components)",
         "validity of a Depend half is defined by Pattern::new / PkgPath::new on that half, as the statement says",
